@@ -5,7 +5,9 @@ import (
 	"go/constant"
 	"go/token"
 	"go/types"
+	"regexp"
 	"sort"
+	"strconv"
 	"strings"
 
 	"golang.org/x/tools/go/ssa"
@@ -58,9 +60,63 @@ type retRec struct {
 }
 
 type writeLog struct {
-	heaps map[string]bool
+	heaps map[string]bool     // keys written
+	full  map[string]bool     // keys written at unknown / loop-varying addresses
+	addrs map[string][]string // keys written only at these (candidate loop-invariant) addresses
 	cells map[*Cell]bool
 	all   bool
+	startN int
+}
+
+func newWriteLog(n int) *writeLog {
+	return &writeLog{heaps: map[string]bool{}, full: map[string]bool{}, addrs: map[string][]string{}, cells: map[*Cell]bool{}, startN: n}
+}
+
+var symNumRe = regexp.MustCompile(`!([0-9]+)`)
+
+// invariantTerm reports whether every generated symbol in the term was created before the loop discovery started.
+func (wl *writeLog) invariantTerm(t string) bool {
+	for _, m := range symNumRe.FindAllStringSubmatch(t, -1) {
+		n, _ := strconv.Atoi(m[1])
+		if n > wl.startN {
+			return false
+		}
+	}
+	return !boundVarRe.MatchString(t)
+}
+
+func (wl *writeLog) note(key, addr string) {
+	wl.heaps[key] = true
+	if addr == "" || !wl.invariantTerm(addr) {
+		wl.full[key] = true
+		return
+	}
+	for _, a := range wl.addrs[key] {
+		if a == addr {
+			return
+		}
+	}
+	wl.addrs[key] = append(wl.addrs[key], addr)
+}
+
+func (wl *writeLog) mergeInto(dst *writeLog) {
+	for k := range wl.heaps {
+		dst.heaps[k] = true
+	}
+	for k := range wl.full {
+		dst.full[k] = true
+	}
+	for k, as := range wl.addrs {
+		for _, a := range as {
+			dst.note(k, a)
+		}
+	}
+	for k := range wl.cells {
+		dst.cells[k] = true
+	}
+	if wl.all {
+		dst.all = true
+	}
 }
 
 type iterInfo struct {
@@ -345,7 +401,7 @@ func (a *Act) assertInvs(h *ssa.BasicBlock, st *State, kind string) {
 func (a *Act) enterLoop(h *ssa.BasicBlock, st *State, ins []edgeIn) {
 	vc := a.vc
 	// 1. discover written set
-	wl := &writeLog{heaps: map[string]bool{}, cells: map[*Cell]bool{}}
+	wl := newWriteLog(vc.n)
 	{
 		saved := a.writeLog
 		a.writeLog = wl
@@ -363,15 +419,7 @@ func (a *Act) enterLoop(h *ssa.BasicBlock, st *State, ins []edgeIn) {
 		vc.quiet--
 		a.writeLog = saved
 		if saved != nil {
-			for k := range wl.heaps {
-				saved.heaps[k] = true
-			}
-			for k := range wl.cells {
-				saved.cells[k] = true
-			}
-			if wl.all {
-				saved.all = true
-			}
+			wl.mergeInto(saved)
 		}
 	}
 	if a.loopWrites == nil {
@@ -408,6 +456,16 @@ func (a *Act) enterLoop(h *ssa.BasicBlock, st *State, ins []edgeIn) {
 	} else {
 		for _, k := range sortedKeys(wl.heaps) {
 			srt := a.vc.heapSorts[k]
+			if !wl.full[k] && len(wl.addrs[k]) > 0 && len(wl.addrs[k]) <= 6 && !strings.HasPrefix(k, "IT:") {
+				// written only at loop-invariant addresses: havoc just those locations
+				_, es := splitArraySort(srt)
+				h := vc.getHeap(st, k, srt)
+				for _, ad := range wl.addrs[k] {
+					h = store(h, ad, vc.fresh("hv_"+k, es))
+				}
+				st.heap[k] = vc.define("Hl_"+k, srt, h)
+				continue
+			}
 			st.heap[k] = vc.fresh("Hl_"+k, srt)
 		}
 	}
@@ -571,9 +629,12 @@ func deref(t types.Type) types.Type {
 	return t
 }
 
-func (a *Act) logHeap(key string) {
+func (a *Act) logHeap(key string) { a.logHeapAt(key, "") }
+
+// logHeapAt records a write to heap key at the given address ("" = unknown / many addresses).
+func (a *Act) logHeapAt(key, addr string) {
 	if a.writeLog != nil {
-		a.writeLog.heaps[key] = true
+		a.writeLog.note(key, addr)
 	}
 	if a.top != nil && a.top.written != nil {
 		a.top.written[key] = true
@@ -616,7 +677,7 @@ func (a *Act) storeAt(st *State, addr string, t types.Type, v Val) {
 				} else {
 					k, srt := g.fieldHeapKey(si, i)
 					a.vc.setHeap(st, k, srt, store(a.vc.getHeap(st, k, srt), addr, fv.S))
-					a.logHeap(k)
+					a.logHeapAt(k, addr)
 				}
 			}
 			return
@@ -625,7 +686,7 @@ func (a *Act) storeAt(st *State, addr string, t types.Type, v Val) {
 	srt := g.sortOf(t)
 	k, hs := memKey(srt)
 	a.vc.setHeap(st, k, hs, store(a.vc.getHeap(st, k, hs), addr, v.S))
-	a.logHeap(k)
+	a.logHeapAt(k, addr)
 }
 
 // loadField / storeField access field i of the struct (type st) at address base.
@@ -661,7 +722,7 @@ func (a *Act) storeField(s *State, base string, t types.Type, i int, v Val) {
 	}
 	k, srt := g.fieldHeapKey(si, i)
 	a.vc.setHeap(s, k, srt, store(a.vc.getHeap(s, k, srt), base, v.S))
-	a.logHeap(k)
+	a.logHeapAt(k, base)
 }
 
 // getPath / setPath navigate nested struct values held in local cells.
@@ -709,9 +770,7 @@ func (a *Act) load(st *State, p Val, pos token.Pos) Val {
 		}
 	}
 	a.nilCheck(st, p, pos)
-	v := a.loadAt(st, p.S, et)
-	a.refFacts(st, v)
-	return v
+	return a.loadAt(st, p.S, et)
 }
 
 // refFacts adds heap well-formedness facts for loaded references.
